@@ -2,11 +2,11 @@ SPECIFICATION Spec
 CONSTANTS
   Node = {1, 2}
   Weaken = {}
-  MCCl <- Cl2Sync
-  PszSet <- Psz1
-  CCSet <- NoCCs
-  Actors <- ActorsOne
-  Bound <- BoundTiny
+  MCCl <- ClFlow
+  PszSet <- PszF
+  CCSet <- NoCCsF
+  Actors <- ActorsFlow
+  Bound <- BoundFlow
 INVARIANTS
   C01_CommittedStable
   C01_AppliedAgree
